@@ -85,6 +85,9 @@ func cJSON(v interface{}) string {
 	case string:
 		return "(JStr " + cStr(x) + ")"
 	case []interface{}:
+		if x == nil {
+			return "JNull" // encoding/json writes a nil slice as null
+		}
 		items := make([]string, len(x))
 		for i, e := range x {
 			items[i] = cJSON(e)
@@ -97,6 +100,9 @@ func cJSON(v interface{}) string {
 		}
 		return "(JArr " + cList(items) + ")"
 	case map[string]interface{}:
+		if x == nil {
+			return "JNull"
+		}
 		keys := make([]string, 0, len(x))
 		for k := range x {
 			keys = append(keys, k)
